@@ -105,7 +105,12 @@ func (c07) Run(c *wk.Case) {
 		r := ref.Id("r0")
 		guard := func(e *ref.Node) *ref.Node { return ref.Try(e, ref.Str("failed")) }
 		var uses []*ref.Node
-		switch c.Rng.IntN(3) {
+		switch c.Rng.IntN(4) {
+		case 3:
+			// a map result is looked into by key as well as listed (both views must describe the same map)
+			k := []string{"z", "k0", "k1", "a", "other", "new"}[c.Rng.IntN(6)]
+			uses = []*ref.Node{guard(ref.Method(r, "isAvail", ref.Str(k))), guard(ref.Method(r, "isAvail", ref.Str("k0"), ref.Str(k))), guard(ref.Method(r, "get", ref.Str(k))), guard(ref.Bin("~", ref.Str(k), r)),
+				guard(ref.Method(ref.Method(r, "put", ref.Str(k), ref.Int(5)), "size")), guard(ref.Method(r, "size")), guard(ref.Method(ref.Method(r, "list"), "size"))}
 		case 0:
 			uses = []*ref.Node{guard(ref.Method(r, "string")), guard(ref.Method(r, "string"))}
 		case 1:
